@@ -69,6 +69,7 @@ class SimTor(object):
         self.onions = collections.OrderedDict()
         self.next_onion = 0
         self.on_command = None          # optional hook(line) called before answering
+        self.strict_conf = False        # reject SETCONF of options that are not in the store
         self.info.update({
             'version': '0.4.8.1',
             'signal/names': 'RELOAD HUP SHUTDOWN DUMP USR1 DEBUG USR2 HALT TERM INT NEWNYM CLEARDNSCACHE HEARTBEAT',
@@ -217,7 +218,9 @@ class SimTor(object):
         for name, val in items:
             k = self.canonical(name)
             if k is None:
-                return (552, [('line', 'Unrecognized option: Unknown option \'%s\'.  Failing.' % name)])
+                if self.strict_conf and not name.startswith('__'):
+                    return (552, [('line', 'Unrecognized option: Unknown option \'%s\'.  Failing.' % name)])
+                k = name
             if k not in cleared:
                 new[k] = []
                 cleared.add(k)
